@@ -35,7 +35,7 @@ RULE = (
     "MultiBinary; weights fresh, or output-layer biases set to +-50 / +-3 per output (saturated tanh, means far "
     "outside the bounds, one-sided logits); gSDE and squash_output variants; 4-9 predict calls per model over "
     "batch in {none, 1, n<=4} x deterministic/stochastic x layout (native / other for images) x key order "
-    "(Dict) x Python-int observations (Discrete) x exploration branch (DQN, rate 1). (train) a real learn() run "
+    "(Dict; every deterministic Dict call is repeated with the keys in space order, reversed and randomly permuted: same action, same features-extractor output) x Python-int observations (Discrete) x exploration branch (DQN, rate 1). (train) a real learn() run "
     "of 4-8 steps on an environment that emits a known sequence of observations, followed by predict() on each "
     "of them, with every tensor handed to a features extractor captured. (reject) observations whose shape was "
     "perturbed (extra / missing / changed dimension, mixed Dict): correspondence of accepted/rejected only. "
@@ -699,6 +699,7 @@ class Tap:
 
         self.policy = policy
         self.fe_inputs = []
+        self.fe_outputs = []
         self.outs = []
         self.raw = None
         self.vec = None
@@ -711,6 +712,7 @@ class Tap:
         for m in policy.modules():
             if isinstance(m, BaseFeaturesExtractor) and id(m) not in nested:
                 self.handles.append(m.register_forward_pre_hook(self._fe_hook))
+                self.handles.append(m.register_forward_hook(self._fe_out_hook))
         if hasattr(policy, "action_net"):
             self.handles.append(policy.action_net.register_forward_hook(self._out_hook))
         elif hasattr(policy, "q_net"):
@@ -738,11 +740,14 @@ class Tap:
         else:
             self.fe_inputs.append(x.detach().clone())
 
+    def _fe_out_hook(self, mod, inp, out):
+        self.fe_outputs.append(out.detach().clone())
+
     def _out_hook(self, mod, inp, out):
         self.outs.append(out.detach().clone())
 
     def reset(self):
-        self.fe_inputs, self.outs, self.raw, self.vec = [], [], None, None
+        self.fe_inputs, self.fe_outputs, self.outs, self.raw, self.vec = [], [], [], None, None
 
     def close(self):
         for h in self.handles:
@@ -828,7 +833,7 @@ def run_predict(ctx, case, ops, plan):
     if case["act"]["k"] == "box":
         rep.count("box:squashed" if squash else "box:clipped")
     tap = Tap(policy)
-    det_results = {}
+    space_keys = list(model.observation_space.spaces.keys()) if case["obs"]["k"] == "dict" else [None]
     try:
         for ci, call in enumerate(case["calls"]):
             obs_in, truth = make_obs(case, call)
@@ -903,6 +908,33 @@ def run_predict(ctx, case, ops, plan):
                 if not fe_inputs:
                     rep.note("no features extractor input captured")
                 check_features(rep, case, "predict", fe_inputs, truth, normalize, sig)
+                check_fe_outputs(rep, case, "predict", tap.fe_outputs, space_keys, truth, 1 if b is None else b,
+                                 normalize, sig)
+            fe_outputs = tap.fe_outputs
+            # key order of a Dict observation must not matter (deterministic calls): space order, reversed, random
+            if call["det"] and not bad and isinstance(obs_in, dict) and not explore:
+                krs = np.random.RandomState(call["vseed"] ^ 0x5BD1)
+                orders = {"space": list(space_keys), "reversed": list(reversed(space_keys)),
+                          "random": [space_keys[j] for j in krs.permutation(len(space_keys))]}
+                for oname, okeys in orders.items():
+                    obs_o = {k: obs_in[k] for k in okeys}
+                    tap.reset()
+                    try:
+                        a_o, _ = predictor(obs_o, deterministic=True)
+                    except Exception as e:
+                        rep.violation("predict() raised on a valid observation", case,
+                                      dict(sig, kind="exception", exception=type(e).__name__, key_order=oname),
+                                      traceback.format_exc()[-1500:])
+                        break
+                    same_f = len(tap.fe_outputs) == len(fe_outputs) and all(
+                        fe_equal(x, y) for x, y in zip(tap.fe_outputs, fe_outputs))
+                    if a_o.shape != action.shape or a_o.tobytes() != action.tobytes() or not same_f:
+                        rep.violation("predict() of the same Dict observation depends on the order in which its keys "
+                                      "are listed", case, dict(sig, kind="key_order", order=oname, features_equal=same_f),
+                                      {"given_order": list(obs_in.keys()), "other_order": okeys,
+                                       "given": action.ravel().tolist(), "other": a_o.ravel().tolist()})
+                        break
+                    rep.count("key_order_equal:" + oname)
             # determinism and layout independence (deterministic calls)
             if call["det"] and not bad:
                 tap.reset()
@@ -987,6 +1019,43 @@ def run_predict(ctx, case, ops, plan):
                                                         "image": leaf["k"] == "image"}))
     finally:
         tap.close()
+
+
+def pure_extractor(case):
+    """the features extractor has no learned part (Flatten / CombinedExtractor without image keys): its output is a
+    function of the observation alone — the per-key encodings, flattened, concatenated in the order of the
+    observation SPACE's keys"""
+    if case["policy"] == "CnnPolicy":
+        return False
+    if case["obs"]["k"] == "dict":
+        return not has_image(case["obs"])
+    return True
+
+
+def expected_fe_output(case, space_keys, truth, i, normalize=True):
+    """oracle's own definition of the features of observation i: encodings concatenated in space-key order"""
+    if case["obs"]["k"] != "dict":
+        leaf, rows = truth[None]
+        return expected_features(leaf, rows[i], normalize)
+    return np.concatenate([expected_features(truth[k][0], truth[k][1][i], normalize) for k in space_keys])
+
+
+def check_fe_outputs(rep, case, path, fe_outputs, space_keys, truth, n, normalize, sig):
+    if not pure_extractor(case):
+        return True
+    for out in fe_outputs:
+        got = features_rows(out)
+        if got.shape[0] != n:
+            continue
+        for i in range(n):
+            exp = expected_fe_output(case, space_keys, truth, i, normalize)
+            if got[i].shape != exp.shape or got[i].astype(np.float32).tobytes() != exp.tobytes():
+                rep.violation("the features computed for an observation are not its per-key encodings in the order of "
+                              "the observation space's keys", case, dict(sig, kind="fe_output", path=path),
+                              {"row": i, "got": got[i][:32].tolist(), "expected": exp[:32].tolist(),
+                               "space_keys": space_keys})
+                return False
+    return True
 
 
 def fe_equal(x, y):
@@ -1092,6 +1161,18 @@ def run_train(ctx, case, ops, plan):
                              "emitted": [np.asarray(r).ravel()[:12].tolist() for r in truth_rows[key]]})
                         return
                     seen[key].add(bts)
+        space_keys = list(model.observation_space.spaces.keys()) if case["obs"]["k"] == "dict" else [None]
+        truth_all = {key: (leaf, truth_rows[key]) for key, leaf in leaves}
+        if pure_extractor(case):
+            exp_out = [expected_fe_output(case, space_keys, truth_all, j).tobytes() for j in range(n)]
+            for out in tap.fe_outputs:
+                got = features_rows(out)
+                for i in range(got.shape[0]):
+                    if got[i].astype(np.float32).tobytes() not in exp_out:
+                        rep.violation("during learn() the features computed for an observation are not the per-key "
+                                      "encodings, in space-key order, of anything the environment emitted", case,
+                                      dict(sig0, kind="fe_output"), {"got": got[i][:32].tolist(), "space_keys": space_keys})
+                        return
         rep.count("train_feature_rows", sum(int(features_rows(c[k] if isinstance(c, dict) else c).shape[0])
                                             for c in train_caps for k, _ in leaves))
         if case["algo"] in ON_POLICY:
@@ -1116,6 +1197,18 @@ def run_train(ctx, case, ops, plan):
             truth = {key: (leaf, [truth_rows[key][j]]) for key, leaf in leaves}
             if not check_features(rep, case, "predict_after_train", tap.fe_inputs, truth, True, sig0):
                 return
+            if not check_fe_outputs(rep, case, "predict_after_train", tap.fe_outputs, space_keys, truth, 1, True, sig0):
+                return
+            if isinstance(seq[j], dict):
+                # the raw observation with its keys listed in reverse: same features as in training
+                first = tap.fe_outputs
+                tap.reset()
+                a_r, _ = model.predict({k: seq[j][k] for k in reversed(list(seq[j].keys()))}, deterministic=True)
+                if a_r.tobytes() != action.tobytes() or len(first) != len(tap.fe_outputs) or not all(
+                        fe_equal(x, y) for x, y in zip(first, tap.fe_outputs)):
+                    rep.violation("predict() of the same Dict observation depends on the order in which its keys "
+                                  "are listed", case, dict(sig0, kind="key_order", order="reversed"))
+                    return
             for key, leaf in leaves:
                 for cap in tap.fe_inputs:
                     t = cap[key] if isinstance(cap, dict) else cap
